@@ -88,6 +88,8 @@ PROPS = {
     },
     "C13": {
         "cli": True,
+        "extra_imports": ["Gofasta.Lemmas.AggCount"],
+        "extra_theorems": ["Gofasta.Lemmas.AggCount.agg_count", "Gofasta.Lemmas.AggCount.agg_count_fold", "Gofasta.Lemmas.AggCount.mem_aggCounts", "Gofasta.Lemmas.AggCount.aggCounts_keys_nodup", "Gofasta.Lemmas.AggCount.agg_count_is_sequences", "Gofasta.Lemmas.AggCount.agg_count_ge_sequences", "Gofasta.Lemmas.AggCount.keyInj_true_model", "Gofasta.Lemmas.AggCount.keyInj_model", "Gofasta.Lemmas.AggCount.agg_count_is_sequences_model_true", "Gofasta.Lemmas.AggCount.agg_count_is_sequences_model", "Gofasta.Lemmas.AggCount.cxb_count_not_sequences", "Gofasta.Lemmas.AggCount.cxc_same_text_two_keys", "Gofasta.Lemmas.AggCount.agg_each_once", "Gofasta.Lemmas.AggCount.agg_rep_is_seq_text", "Gofasta.Lemmas.AggCount.aggTable_nodup", "Gofasta.Lemmas.AggCount.format_erase", "Gofasta.Lemmas.AggCount.mem_aggEntries", "Gofasta.Lemmas.AggCount.cross_mul_iff", "Gofasta.Lemmas.AggCount.agg_threshold", "Gofasta.Lemmas.AggCount.agg_threshold_equal_kept", "Gofasta.Lemmas.AggCount.agg_sorted", "Gofasta.Lemmas.AggCount.agg_perm", "Gofasta.Lemmas.AggCount.mem_aggTable", "Gofasta.Lemmas.AggCount.variants_aggregate_spec", "Gofasta.Lemmas.AggCount.variants_aggregate_spec_rat", "Gofasta.Lemmas.AggCount.variants_aggregate_spec_model"],
         "streams": {"C13": (600, 8000)},
         "thorough_seeds": 3,
         "rule": "a third snps alignments (1-30 rows, width <= 40), two thirds variants cases; thresholds 0, 1, k/n to three decimals, random percent; half the "
@@ -133,8 +135,9 @@ PROPS = {
     },
     "C11": {
         "cli": True,
-        "extra_imports": ["Gofasta.Lemmas.FastaWrite"],
-        "extra_theorems": ["Gofasta.Lemmas.FastaWrite.written_reads_back", "Gofasta.Lemmas.FastaWrite.file_bytes"],
+        "extra_imports": ["Gofasta.Lemmas.FastaWrite", "Gofasta.Lemmas.SamVarPipeline"],
+        "extra_theorems": ["Gofasta.Lemmas.FastaWrite.written_reads_back", "Gofasta.Lemmas.FastaWrite.file_bytes",
+                           "Gofasta.Lemmas.SamVarPipeline.samVarCommand_eq", "Gofasta.Lemmas.SamVarPipeline.varCommand_pair", "Gofasta.Lemmas.SamVarPipeline.samVarOn_rows_are_variants_rows", "Gofasta.Lemmas.SamVarPipeline.samVarOn_eq_variants_lists", "Gofasta.Lemmas.SamVarPipeline.samVarOn_aggregate", "Gofasta.Lemmas.SamVarPipeline.pair_bytes", "Gofasta.Lemmas.SamVarPipeline.toPairAlign_files", "Gofasta.Lemmas.SamVarPipeline.pairText_reads_back", "Gofasta.Lemmas.SamVarPipeline.caller_on_read_back", "Gofasta.Lemmas.SamVarPipeline.sam_variants_is_variants_on_pairs", "Gofasta.Lemmas.SamVarPipeline.sam_variants_rows", "Gofasta.Lemmas.SamVarPipeline.samVarCommand_rows", "Gofasta.Lemmas.SamVarPipeline.pv_ok"],
         "streams": {"C11": (450, 8000)},
         "thorough_seeds": 3,
         "rule": "SAM files as C02 (non-conflicting records, 0-5 insertions) with a GenBank or GFF annotation of the same reference, reference from file or from "
